@@ -23,6 +23,13 @@ Theorem C12_float_only_if_finite : forall s, convert s = OFloat ->
   match s with SDec ip frac exp => is_integer_spelling s = false /\ dec_finite ip frac exp = true | _ => False end.
 Proof. exact convert_float. Qed.
 
+(* the conversion's shortcuts for astronomically large exponents agree with the exact comparison for every spelling *)
+Theorem C12_float_test_exact : forall ip frac exp,
+  digits_ok 10 (ip ++ match frac with Some f => f | None => [] end) ->
+  (match exp with Some (_, ds) => digits_ok 10 ds | None => True end) ->
+  dec_finite ip frac exp = dec_finite_exact ip frac exp.
+Proof. exact dec_finite_correct. Qed.
+
 (* the interner is a total function (a Gallina definition) that never identifies two names *)
 Theorem C12_intern_injective : forall s t : string, intern s = intern t -> s = t.
 Proof. exact intern_injective. Qed.
@@ -37,5 +44,6 @@ Print Assumptions C12_literal_int_exact.
 Print Assumptions C12_integer_spelling_never_float.
 Print Assumptions C12_integer_in_range_accepted.
 Print Assumptions C12_float_only_if_finite.
+Print Assumptions C12_float_test_exact.
 Print Assumptions C12_intern_injective.
 Print Assumptions C12_literal_instances.
